@@ -109,6 +109,8 @@ def build_program(pq, rng, sim, d):
             r, p = u(0.05, 0.5), u(0, 3); return (lambda: pq.Displacement(r=r, phi=p)), 1, False
         if name == "S2":
             r, p = u(0.05, 0.3), u(0, 3); return (lambda: pq.Squeezing2(r=r, phi=p)), 2, False
+        if name == "QP":
+            sv = u(-0.4, 0.4); return (lambda: pq.QuadraticPhase(s=sv)), 1, False
         if name == "KR":
             x = u(0, 1); return (lambda: pq.Kerr(xi=x)), 1, True
         if name == "CK":
@@ -117,8 +119,8 @@ def build_program(pq, rng, sim, d):
             t = u(0, 1.5); return (lambda: pq.Beamsplitter(theta=t, phi=0.1)), 2, True
         if name == "IX":
             p = u(0, 1.5); return (lambda: pq.fermionic.IsingXX(phi=p) if hasattr(pq.fermionic, "IsingXX") else pq.IsingXX(phi=p)), 2, True
-    pools = {"Gaussian": ["BS", "PS", "IF", "SQ", "DP", "S2"], "PureFock": ["BS", "PS", "IF", "KR", "CK", "SQ", "DP"],
-             "Fock": ["BS", "PS", "KR", "SQ"], "Passive": ["BS", "PS", "IF"], "FermionicGaussian": ["BS", "PS"]}
+    pools = {"Gaussian": ["BS", "PS", "IF", "SQ", "DP", "S2"], "PureFock": ["BS", "PS", "IF", "KR", "CK", "SQ", "DP", "S2", "QP"],
+             "Fock": ["BS", "PS", "KR", "SQ", "S2", "QP"], "Passive": ["BS", "PS", "IF"], "FermionicGaussian": ["BS", "PS"]}
     for _ in range(int(rng.integers(2, 6))):
         f, k, conserving = gate(pools[sim])
         if k > d:
